@@ -83,6 +83,8 @@ func C15_roundtrip() {
 	ncases := len(c15Cases)
 	if dlen == 3 || slen == 3 {
 		ncases = 1
+	} else if which == 2 {
+		ncases = 4 // both parts symbolic: the four skeletons that have both (all eight did not fit 45 minutes)
 	}
 	c := c15Cases[sym.Choice("case", ncases)]
 	in := sym.Int64("int")
